@@ -13,25 +13,31 @@ from .. import lintgen
 ID = 'C43'
 LEVEL = 'exploration'
 TECHNIQUE = ('generated UB-free Fortran files (old-style operators / UBOUND checks next to decoys in strings and comments) '
-             'run through Linter.check + Linter.fix; oracles: re-lint, token-level comparison (own free-form lexer) with the '
-             'expected fixed text rendered from the generator model, comment/string byte identity, gfortran differential '
-             'execution of before/after with a generated driver')
+             'run through Linter.check + Linter.fix; oracles: listed-defect recognisers for files that are not Fortran any more, '
+             're-lint, token-level comparison (own free-form lexer) with the expected fixed text rendered from the generator '
+             'model, comment/string byte identity, gfortran differential execution of before/after with a generated driver; '
+             'triggers of the listed root causes are removed from the drawn cases (probed on the tree under test)')
 RULE = ('a case is a file model (optional module with 1-2 procedures, 0-2 free routines, optional internal procedure; '
         'IF / ELSE IF / one-line IF / WHERE statement+construct / DO / DO WHILE / continued conditions; relational '
         'operators in old and new spelling, 4 letter cases, with and without blanks; assumed-shape dummies with full / '
-        'partial / no UBOUND checks in 4 declaration styles) + 2 input vectors + rule order. non-trivial = the original '
+        'partial / no UBOUND checks in 4 declaration styles) + 2 input vectors + rule order, after removal of the features '
+        'listed under excluded_by_construction (known:*). non-trivial = the original '
         'file contains >= 1 fixable violation (old-style operator token or fully checked assumed-shape dummy) and >= 1 decoy '
         '(operator / UBOUND text inside a string literal or a comment); distinct by JSON case')
 ASSUMPTIONS = [
     '"all other text is unchanged" is decided on tokens: letter case of keywords/names, blanks, line breaks and continuation layout '
-    'are not compared; string literals and comments are compared byte-wise (comments without trailing blanks)',
+    'are not compared; string literals and comments are compared byte-wise (comments without trailing blanks); a comment may move from '
+    'behind a statement to a line of its own',
     'END IF/ENDIF, END DO/ENDDO, ELSE IF/ELSEIF, ELSE WHERE/ELSEWHERE are the same token; a declaration statement equals the set of its '
     'single-entity declarations (DIMENSION attribute == entity shape)',
-    'the expected fixed text is the generator model rendered with Fortran 90 operators, without the check conditionals of fully '
-    'checked assumed-shape dummies and with their checked extents as declared shape (what the rule docstrings and tests describe)',
+    'the expected fixed text is the generator model rendered with Fortran 90 operators, with the checked extents of fully checked '
+    'assumed-shape dummies as declared shape; their check conditionals may be removed (what the rule does) or stay; an old-style '
+    'operator that the rule does not report (PRINT statements; second spelling of an operator on a later line) may stay',
     'interface blocks of callers of a free routine are updated consistently with the fix (the generated driver of the fixed file '
     'declares the expected explicit shapes)',
     'programs are free of undefined behaviour by construction; gfortran -O0 -fcheck=all output of the original program is the reference',
+    'the exclusions of the probed root causes follow the committed replays: a trigger is generated again as soon as its replay passes the '
+    'text oracles on the tree under test; PYTHONHASHSEED=0 (set by ./check) makes the hash-dependent defect of Fixer reproducible',
 ]
 SHARDS = {'quick': 8, 'thorough': 16}
 BUDGET = {'quick': 70, 'thorough': 1500}
@@ -368,7 +374,7 @@ def cases(draw, thorough):
 #
 # * PROBED: defects of Fixer / the conservative backend that make most fixed files unusable. The committed replay of the
 #   finding is the probe: it is evaluated (text oracles only) once per process on the tree under test; the trigger is
-#   switched off only while the replay still reproduces its signature. Once loki is fixed the feature is generated again
+#   switched off unless the replay passes all text oracles. Once loki is fixed the feature is generated again
 #   without any edit here (and the `known:` line falls silent; it should then be turned into a `fixed:` line).
 # * STATIC: defects of DynamicUboundCheckRule that need the differential (compile-and-run) oracle to show; always off.
 
@@ -427,7 +433,9 @@ def active_exclusions():
                 case = json.load(f)['case']
             sub = _ProbeCtx()
             _with_workdir(case, sub, behaviour=False)
-            if sig in sub.failures:
+            if sub.failures:
+                # the listed signature, or something else goes wrong with the probe on this tree: keep the trigger out of the
+                # search (the runner replays the same file and reports whatever is not listed)
                 act.add(name)
         _ACTIVE = act
     return _ACTIVE
@@ -1133,9 +1141,37 @@ def _all_stmts(body):
 
 def compare_comments(expected, exp, exp_lines, exp_com, act_com, fail):
     ec = [c['text'] for c in exp_com]
+    if ec == [c['text'] for c in act_com]:
+        return
+    # listed root cause 1: the conservative visit_Comment cuts the source line of `<statement>  ! comment` at the first '!'; when that
+    # one is inside a string literal, the comment is written as `! <rest of the literal> <rest of the statement> ! comment`
+    known_texts = set(ec)
+    act_com = [dict(c) for c in act_com]
+    garbled = []
+    for c in act_com:
+        if c['text'] in known_texts:
+            continue
+        for k in range(1, len(c['text'])):
+            if c['text'][k] == '!' and c['text'][k:] in known_texts and ("'" in c['text'][:k] or '"' in c['text'][:k]):
+                garbled.append(c['text'])
+                c['text'] = c['text'][k:]
+                break
+    if garbled:
+        fail('C43:comment:changed:trailing-a-statement-with-exclamation-mark-in-string', f'comment written as {garbled[0]!r}')
     ac = [c['text'] for c in act_com]
     if ec == ac:
         return
+
+    def repeated(j):
+        # listed root cause 2: the run of equal comments around act_com[j] contains a comment behind a statement followed by the same
+        # comment on a line of its own (source line of the statement re-used + separate comment node)
+        lo, hi = j, j + 1
+        while lo > 0 and ac[lo - 1] == ac[j]:
+            lo -= 1
+        while hi < len(ac) and ac[hi] == ac[j]:
+            hi += 1
+        return any(act_com[k]['ctx'] in ('trail', 'cont') and act_com[k + 1]['ctx'] == 'own' for k in range(lo, hi - 1))
+
     sm = difflib.SequenceMatcher(None, ec, ac, autojunk=False)
     for tag, i1, i2, j1, j2 in sm.get_opcodes():
         if tag == 'equal':
@@ -1143,10 +1179,7 @@ def compare_comments(expected, exp, exp_lines, exp_com, act_com, fail):
         if tag in ('replace', 'delete'):
             c0 = exp_com[i1]
             ctxt = c0['ctx']
-            exp_line = expected.split('\n')[c0['line'] - 1]
-            if tag == 'replace' and ctxt == 'trail' and any('!' in t.text for t in lex(exp_line)[0] if t.kind == 'str'):
-                ctxt = 'trailing-a-statement-with-exclamation-mark-in-string'
-            elif ctxt == 'trail':
+            if ctxt == 'trail':
                 ctxt = 'trailing:' + _stmt_class_at(exp, exp_lines, c0['line'])
             elif ctxt == 'cont':
                 ctxt = 'inside-continued-statement'
@@ -1154,18 +1187,7 @@ def compare_comments(expected, exp, exp_lines, exp_com, act_com, fail):
                 ctxt = 'own-line'
             fail(f'C43:comment:{"changed" if tag == "replace" else "lost"}:{ctxt}',
                  f'expected comments {ec[i1:i2]} got {ac[j1:j2]}')
-            continue
-        # inserted comments: a comment that follows a statement on its line is written once more on a line of its own when the
-        # statement's source line is re-used (it contains the comment) next to the separate comment node
-        def repeated(j):
-            # the run of equal comments around act_com[j] contains a comment behind a statement followed by the same comment on its own line
-            lo, hi = j, j + 1
-            while lo > 0 and act_com[lo - 1]['text'] == act_com[j]['text']:
-                lo -= 1
-            while hi < len(act_com) and act_com[hi]['text'] == act_com[j]['text']:
-                hi += 1
-            return any(act_com[k]['ctx'] in ('trail', 'cont') and act_com[k + 1]['ctx'] == 'own' for k in range(lo, hi - 1))
-        if all(repeated(j) for j in range(j1, j2)):
+        elif all(repeated(j) for j in range(j1, j2)):
             fail('C43:comment:duplicated:trailing-comment-repeated-on-a-line-of-its-own', f'comments {ac[j1:j2]} appear once more than expected')
         elif any(ac[j] in ec[max(0, i1 - 1):i1 + 1] for j in range(j1, j2)):
             fail('C43:comment:duplicated:other', f'unexpected repetition {ac[j1:j2]} between {ec[max(0, i1 - 1):i1 + 1]}')
